@@ -486,7 +486,38 @@ func checkC05(c *Ctx) {
 				nd := nd
 				refresh := func(in ssa.Instruction) bool {
 					call, ok := in.(*ssa.Call)
-					if !ok || !call.Call.IsInvoke() || pathOf(call.Call.Value) != nd.conn {
+					if !ok {
+						return false
+					}
+					if !call.Call.IsInvoke() {
+						// a helper of the package that refreshes the deadline of the connection it is handed
+						hc := helperCallee(hp, &call.Call)
+						if hc == nil {
+							return false
+						}
+						for i, a := range call.Call.Args {
+							if pathOf(a) != nd.conn || i >= len(hc.Params) {
+								continue
+							}
+							found := false
+							eachInstr(hc, func(in2 ssa.Instruction) {
+								c2, ok := in2.(*ssa.Call)
+								if !ok || !c2.Call.IsInvoke() || c2.Call.Value != ssa.Value(hc.Params[i]) {
+									return
+								}
+								for _, m := range nd.ms {
+									if c2.Call.Method.Name() == m && unconditional(hc, in2) {
+										found = true
+									}
+								}
+							})
+							if found {
+								return true
+							}
+						}
+						return false
+					}
+					if pathOf(call.Call.Value) != nd.conn {
 						return false
 					}
 					for _, m := range nd.ms {
